@@ -5,6 +5,7 @@ import (
 	"go/ast"
 	"go/constant"
 	"go/token"
+	"golang.org/x/tools/go/ssa"
 	"os"
 	"reflect"
 	"sort"
@@ -557,13 +558,66 @@ func c12(r *Report) propMeta {
 	gm := "client/grpc/oracle/proof.GetMerklePaths"
 	r.CondExists("side-by-prefix-length", gm, Cond{Op: "EQL", A: []string{"binop:+", "const:1", "call:binary.Varint"}, B: []string{"len", "field:InnerOp.Prefix"}, Want: false}, 1)
 	r.Exists("fields-in-order", gm, StoreEff("IAVLMerklePath.SubtreeHeight", "call:binary.Varint", "!slice"), 1)
+	c12Sibling(r, gm)
 	return propMeta{
 		Decided: []string{
 			"R1 the Merkle path of the `oracle` leaf among the constant store names passed to NewKVStoreKeys (sorted, RFC-6962 split) has exactly the depth and left/right pattern GetMultiStoreProof hard-codes (Path[i].Prefix[1:] vs .Suffix), recomputed on every run: adding/removing/renaming a store that moves the leaf fails the check",
 			"R2 the five hashed header parts are contiguous, tree-aligned runs of cometbft Header.Hash's leaf list (read from the dependency source) and the uncovered leaves are exactly Height, Time, AppHash",
-			"R5 IAVL node headers are parsed as a chain of varints (height, size, version), the k-th starting at the sum of all previous lengths; side decided by comparing the header length + 1 with the prefix length", "R3 the literal bytes 34,10,18,42,50 equal (field<<3|2) for the field numbers in cometbft's CanonicalVote/CanonicalBlockID struct tags; 32 and 72 follow from the fixed sizes; only BlockIDFlagCommit votes are used and the recovered address must equal the vote's validator address",
+			"R5 (sibling bytes) the sibling hash is taken from the Suffix without its LEADING length marker (Suffix[1:]) when the proven node is the left child, and from the Prefix after the node header and child marker without its TRAILING marker (Prefix[n+1:len-1]) when it is the right child - whether written inline or in a private helper (seed C12-3 trimmed the wrong end of the suffix)", "R5 IAVL node headers are parsed as a chain of varints (height, size, version), the k-th starting at the sum of all previous lengths; side decided by comparing the header length + 1 with the prefix length", "R3 the literal bytes 34,10,18,42,50 equal (field<<3|2) for the field numbers in cometbft's CanonicalVote/CanonicalBlockID struct tags; 32 and 72 follow from the fixed sizes; only BlockIDFlagCommit votes are used and the recovered address must equal the vote's validator address",
 		},
 		Undecided: []string{"IAVL proof values over all tree shapes beyond the varint-offset chain", "signature recovery itself", "one-byte length prefixes holding for long chain ids / part-set totals >= 128"},
 		Assume:    []string{"rootmulti commits exactly the mounted IAVL KV stores (transient and memory stores are excluded)", "cometbft source in the module cache is what the node runs"},
+	}
+}
+
+// c12Sibling: the two stores to IAVLMerklePath.SiblingHash have the two shapes the IAVL inner-node preimage dictates:
+//
+//	inner = header || 0x20 || left || 0x20 || right ; proven node left  => Prefix = header||0x20, Suffix = 0x20||right
+//	                                                   proven node right => Prefix = header||0x20||left||0x20, Suffix = ""
+func c12Sibling(r *Report, gm string) {
+	w := r.W
+	fn := w.Fn(gm)
+	d := "GetMerklePaths takes the sibling hash from Suffix[1:] (left child) or Prefix[header+1 : len-1] (right child)"
+	if fn == nil {
+		r.Unres("sibling|fn", d, "function not found")
+		return
+	}
+	sites := w.Sites(fn, StoreEff("IAVLMerklePath.SiblingHash"))
+	if len(sites) != 2 {
+		r.Unres("sibling|count", d, fmt.Sprintf("%d stores to SiblingHash, expected 2", len(sites)))
+		return
+	}
+	var fromSuffix, fromPrefix bool
+	for _, s := range sites {
+		st := s.Instr.(*ssa.Store)
+		t := Render(st.Val)
+		w.SitesExamined++
+		switch {
+		case t.Has("field:InnerOp.Suffix") && !t.Has("field:InnerOp.Prefix"):
+			// exactly: drop the first byte, keep the rest
+			if t.Has("^slice:lo", "const:1", "!binop:-") {
+				fromSuffix = true
+				r.OK("sibling|suffix", d, w.Pos(st.Pos()), "Suffix[1:]")
+			} else {
+				r.Bad("sibling|suffix", d, w.Pos(st.Pos()), "the sibling taken from the Suffix is "+clip(t.String(), 200)+": the 0x20 marker is the FIRST byte of the suffix")
+				fromSuffix = true
+			}
+		case t.Has("field:InnerOp.Prefix") && !t.Has("field:InnerOp.Suffix"):
+			// starts after header+marker (a sum of the varint lengths plus one), ends one byte before the end
+			okLo := t.Has("call:binary.Varint", "binop:+", "const:1")
+			okHi := t.Has("binop:-", "len") && (t.Has("^slice:lohi") || t.Has("^slice:hi"))
+			if okLo && okHi {
+				fromPrefix = true
+				r.OK("sibling|prefix", d, w.Pos(st.Pos()), "Prefix[header+1 : len-1]")
+			} else {
+				r.Bad("sibling|prefix", d, w.Pos(st.Pos()), "the sibling taken from the Prefix is "+clip(t.String(), 200))
+				fromPrefix = true
+			}
+		default:
+			r.Bad("sibling|source", d, w.Pos(st.Pos()), "a sibling hash that comes from neither Prefix nor Suffix alone: "+clip(t.String(), 160))
+		}
+	}
+	if !fromSuffix || !fromPrefix {
+		r.Unres("sibling|both", d, "expected one store from the Suffix and one from the Prefix")
 	}
 }
